@@ -350,6 +350,9 @@ func (f *Frame) calleeScope(st *execState, fn *ssa.Function, con *Contract, sig 
 			sc.vars[name] = e.svOf(v, t)
 		}
 	}
+	for n, w := range f.callWitness {
+		sc.vars[n] = w
+	}
 	if fn != nil {
 		for i, p := range fn.Params {
 			if i < len(args) {
@@ -475,7 +478,16 @@ func (f *Frame) modularCall(st *execState, fn *ssa.Function, name string, con *C
 	if res == nil {
 		res = f.freshResult(st, shortCallee(name), rtype, hint)
 	}
-	// "returns" clauses: redefine integer results as ite(when, value, fresh)
+	// witnesses: fresh values at a call site
+	f.callWitness = map[string]SV{}
+	for _, wt := range con.Witnesses {
+		ty, ok := specTypes[wt.Type]
+		if !ok {
+			panic(specError{"witness " + wt.Name + ": unsupported type " + wt.Type})
+		}
+		f.callWitness[wt.Name] = SV{k: kInt, t: tb.Fresh("wit."+sanitize(shortCallee(name))+"."+wt.Name, BV(ty.w)), signed: ty.signed}
+	}
+	// "returns" clauses: redefine results as ite(when, value, fresh)
 	if len(con.Returns) > 0 {
 		sc1 := f.calleeScope(st, fn, con, sig, args, res, pre, recvFirst)
 		rs := sig.Results()
@@ -490,30 +502,45 @@ func (f *Frame) modularCall(st *execState, fn *ssa.Function, name string, con *C
 				panic(specError{"returns: unknown result " + rc.Result + " of " + name})
 			}
 			rt := rs.At(idx).Type()
-			bt, ok := rt.Underlying().(*types.Basic)
-			if !ok || bt.Info()&types.IsInteger == 0 {
-				panic(specError{"returns: only integer results can be defined (" + rc.Result + " of " + name + ")"})
-			}
 			sc1.goal = false
 			sc1.what = rc.Val.Text
-			v := sc1.toInt(sc1.eval(rc.Val.Expr), bitsOf(rt), isSigned(rt))
-			var cur *Term
+			var curV Val
 			if rs.Len() == 1 {
-				cur = res.(Scalar).T
+				curV = res
 			} else {
-				cur = res.(TupleV).Elems[idx].(Scalar).T
+				curV = res.(TupleV).Elems[idx]
 			}
-			nv := v
-			if rc.When != nil {
-				w := e.evalBool(sc1, rc.When.Expr, rc.When.Text)
-				nv = tb.Ite(w, v, cur)
+			var newV Val
+			if _, isSlice := rt.Underlying().(*types.Slice); isSlice {
+				sv := sc1.eval(rc.Val.Expr)
+				nsl, ok := sv.v.(SliceV)
+				if sv.k != kVal || !ok {
+					panic(specError{"returns: slice-valued result needs a slice expression (" + rc.Result + " of " + name + ")"})
+				}
+				newV = nsl
+				if rc.When != nil {
+					w := e.evalBool(sc1, rc.When.Expr, rc.When.Text)
+					newV = e.mergeVal(w, nsl, curV)
+				}
+			} else {
+				bt, ok := rt.Underlying().(*types.Basic)
+				if !ok || bt.Info()&types.IsInteger == 0 {
+					panic(specError{"returns: only integer and slice results can be defined (" + rc.Result + " of " + name + ")"})
+				}
+				v := sc1.toInt(sc1.eval(rc.Val.Expr), bitsOf(rt), isSigned(rt))
+				nv := v
+				if rc.When != nil {
+					w := e.evalBool(sc1, rc.When.Expr, rc.When.Text)
+					nv = tb.Ite(w, v, curV.(Scalar).T)
+				}
+				newV = Scalar{nv}
 			}
 			if rs.Len() == 1 {
-				res = Scalar{nv}
+				res = newV
 			} else {
 				tv := res.(TupleV)
 				el := append([]Val{}, tv.Elems...)
-				el[idx] = Scalar{nv}
+				el[idx] = newV
 				res = TupleV{el}
 			}
 			// later clauses see the redefined value
@@ -542,7 +569,7 @@ func (f *Frame) modularCall(st *execState, fn *ssa.Function, name string, con *C
 		if i == defIdx {
 			continue
 		}
-		skip := false
+		skip := mentionsGhost(con, en.Expr)
 		for _, ri := range con.retEnsures {
 			if ri == i {
 				skip = true // already built into the result definition
@@ -551,8 +578,7 @@ func (f *Frame) modularCall(st *execState, fn *ssa.Function, name string, con *C
 		if skip {
 			continue
 		}
-		sc.goal = false
-		e.assume(tb.Implies(st.reach, e.evalBool(sc, en.Expr, en.Text)))
+		e.assumeClause(sc, en.Expr, en.Text, st.reach)
 	}
 	return res
 }
@@ -579,6 +605,13 @@ func (f *Frame) resultScope(st *execState, vals []Val) *Scope {
 		}
 		if f.con != nil && i < len(f.con.Results) {
 			sc.vars[f.con.Results[i].Name] = sv
+		}
+	}
+	if f.con != nil {
+		for _, wt := range f.con.Witnesses {
+			sc.goal = false
+			sc.what = wt.Def.Text
+			sc.vars[wt.Name] = sc.coerceParam(sc.eval(wt.Def.Expr), wt.Type, "witness "+wt.Name)
 		}
 	}
 	return sc
@@ -896,4 +929,30 @@ func (f *Frame) appendOp(st *execState, c *ssa.CallCommon, args []Val, pos token
 	f.frameCheck(&st2, dst, addBytes, pos, "append in place")
 	st.mem = e.mc.Copy(m, dst, sp, addBytes)
 	return SliceV{rp, newLen, rc}
+}
+
+// mentionsGhost: the clause speaks about a loop ghost variable (or a name bound
+// by "after call") of the callee; such clauses are internal to the callee's
+// proof and are not exported to callers.
+func mentionsGhost(con *Contract, ex ast.Expr) bool {
+	names := map[string]bool{}
+	for _, l := range con.Loops {
+		for _, g := range l.Ghosts {
+			names[g.Name] = true
+		}
+	}
+	for _, a := range con.Afters {
+		names[a.Name] = true
+	}
+	if len(names) == 0 {
+		return false
+	}
+	found := false
+	ast.Inspect(ex, func(n ast.Node) bool {
+		if id, ok := n.(*ast.Ident); ok && names[id.Name] {
+			found = true
+		}
+		return !found
+	})
+	return found
 }
